@@ -35,6 +35,14 @@ CHECKS = {
             "TLC computes the exact optimum OptSimple/OptEO from an algorithm-independent hull definition for every state x configuration; the objective realised by the fitted ThresholdOptimizer must equal it",
             "the specification's optimum is the maximum over the grid of the group-frequency-weighted upper hull (pointwise-lowest ROC hull for equalized odds), defined as a max over exact points and straddling pairs, so it is a reference independent of the code's chain/interpolation algorithm (whose transcription TLC proves equivalent); realised objective from _pmf_predict compared at 1e-9; never below the best constant classifier; grid_size=1000 dominates coarser nested grids",
             "linearity of the per-group metrics in the confusion counts (randomisation spans the convex hull) is stated in the spec, not proved", "5/C05"),
+    "C06": (["Moments.tla", "Rat.tla"],
+            "TLC exhaustive enumeration of (group,label,stratum) multisets (Moments.tla: events, index, Gamma; laws PairedSigns, EventMembership, Affine, RatioOne) + load_data/gamma/bound replay of every state for 5 moments x 3 bounds",
+            "the index set (exactly one +/- entry per occurring (event, group) pair, no entry for rows outside the conditioned label class), gamma on zero/unit/soft/hard predictors via the TLC-proved affine form, bound(), BoundedGroupLoss (3 losses, 2 clip ranges), ErrorRate (4 cost pairs) are compared with exact rationals on every state; r = 1 '+' entries cross-checked against the real MetricFrame",
+            "states with a single row are skipped (the reductions' input validation rejects them; outside the property's 2..4 groups); event names compared literally", "5/C06"),
+    "C07": (["Moments.tla", "Rat.tla"],
+            "TLC checks the reduction identity (IdentityOK, LossIdentity), ProjectOK and ReductionExact (argmin equality over the whole hypothesis class and a multiplier grid) on the specification; signed_weights / project_lambda / _call_oracle of the code replayed on every state",
+            "signed_weights for every unit multiplier equals the exact rational vector; additivity with random lambda; the identity lambda.gamma(h)-lambda.gamma(h') = -(1/n) sum w_i (h_i-h'_i) re-evaluated on the code's own gamma and weights with soft predictors; project_lambda non-negative and Lagrangian-non-decreasing; loss-moment identity and weights lambda_g/P(g); ErrorRate objective weights; the labels 1[w>0] and weights n|w|/sum|w| that _Lagrangian._call_oracle hands to the learner are recorded and compared",
+            "multiplier grid in TLC: entries 0..2 with at most two non-zero components (the identities are linear in lambda); empty constraint index and all-zero weights excluded as preconditions", "5/C07"),
 }
 
 PENDING_REASON = "check under construction in this session (DESIGN.md section 5 describes the planned TLA+ spec and binding); not yet claimed"
